@@ -277,5 +277,15 @@ theorem expand_ignores_const {f g : Factor α} {extra : List (Name × Nat)} (h :
     (hagree : ∀ p ∈ f.inputs, env.lookup p.1 = env'.lookup p.1) : g.eval env = g.eval env' := by
   rw [expand_eval h env hc, expand_eval h env' hc']
   exact eval_congr f env env' hagree
+
+/-- the model's `pow_op` (`applyScale`): repeated multiplication is the semiring power -/
+theorem powNat_eq_pow (x : α) : ∀ k : Nat, powNat (srOps α) x k = x ^ k
+  | 0 => by simp [powNat, srOps]
+  | 1 => by simp [powNat]
+  | k + 2 => by
+    have ih := powNat_eq_pow x (k + 1)
+    simp only [powNat, ih]
+    show x ^ (k + 1) * x = x ^ (k + 2)
+    rw [pow_succ x (k + 1)]
 end Plated
 end FV.Props.C09.Exec
